@@ -97,6 +97,9 @@ fn code_target(p: &Plan, no_code: bool, f: &SMethod, a: Option<&SMethod>, s: &mu
 		visible_type: slot(on(4), &fc.visible_type, ac.map(|c| &c.visible_type), s),
 		invisible_type: slot(on(5), &fc.invisible_type, ac.map(|c| &c.invisible_type), s),
 		unknown: slot(on(6), &fc.unknown, ac.map(|c| &c.unknown), s),
+		empty_line_table: slot(on(1), &fc.empty_line_table, ac.map(|c| &c.empty_line_table), s),
+		// the model does not say which of the two attributes was the empty one: demanded only when both are of interest
+		empty_local_table: slot(on(2) && on(3), &fc.empty_local_table, ac.map(|c| &c.empty_local_table), s),
 	})
 }
 
